@@ -1040,6 +1040,6 @@ func TestProp(t *testing.T) {
 			"an LRU shadow of the map order is used only to label classes, never by the oracle",
 			"the byte target of the usage-driven pass is read loosely: stopping too early is judged against the documented target (used - lower%), going on too long against the coded one (total - lower%); usage exactly on a threshold is never judged",
 		},
-		Parts: []pbt.Part{pbt.NewPart("store", 1, gen, run)},
+		Parts: []pbt.Part{pbt.NewPart("store", 12, gen, run), pbt.NewPart("race", 1, genRace, runRace)},
 	})
 }
